@@ -25,7 +25,7 @@ TRUSTED = [
 ASSUMPTIONS = [
     "the request header block is valid UTF-8 (otherwise the channel raises before any handler is consulted)",
     "one configured user per server section, as make_http_servers builds it",
-    "F18 boundary, exactly: served_iff_authorized holds for every server section whose parsed username is a non-empty string. A section with `username=` (empty value) and any password is ACCEPTED by _parse_username_and_password (it only rejects one of the two being absent), reaches make_http_servers as ('', password), fails `if username:` and runs with no handler wrapped (theorem f18_empty_username_disables_auth; monitor kind empty-username-disables-auth; open finding F18). A section with neither option is unauthenticated by design. An empty PASSWORD with a non-empty username is authenticated normally (credentials 'user:').",
+    "F18 (fixed, `if username is not None:`): a section with `username=` (empty value) and a password is accepted by _parse_username_and_password and is now authenticated like any other (credentials ':<password>'; theorem f18_empty_username_is_authenticated; monitor kind empty-username-disables-auth reports the defect if it returns). A section with neither option is unauthenticated by design (no_credentials_configured_is_open). An empty PASSWORD with a non-empty username is authenticated normally (credentials 'user:').",
     "a configured username containing ':' can never authenticate (the decoded cookie is split at the first colon): fails closed",
 ]
 RULE = ("level A cases = (stored user, stored password plain|{SHA}) x Authorization header class: absent, other scheme, "
@@ -43,7 +43,7 @@ LEVEL_TEXT = ("served_iff_authorized is proved for every header list, every para
               "every path-matching function and every non-empty configured username; all_handlers_wrapped is decided "
               "over the table regenerated from make_http_servers; refusal_status and refused_has_no_effect for all inputs")
 LEVEL_NOTE = ("trusts Lean's kernel, the extractor, Python's re/base64/hashlib; the handlers behind the wrapper and "
-              "the socket layer are exercised by correspondence only; F18 (empty username) is an open finding")
+              "the socket layer are exercised by correspondence only")
 DESIGN_REF = "DESIGN.md section 6, C17"
 
 MARK = b'INNER-HANDLER-BODY'
@@ -635,7 +635,7 @@ def run_level_b_multi(ctx):
             secs_field = ';'.join('%s/%s' % (opt(u), opt(st)) for u, st, _ in creds)
             ops, lines = [], []
             for i, section, (user, stored, pw), hsrv, log, wrapped in servers:
-                auth_on = bool(user)
+                auth_on = user is not None       # `username=` (empty) is a configured username too (F18, fixed)
                 ctx.count('Bm:section:%s:%s' % (section.split('_')[0], 'auth' if auth_on else ('empty-username' if user == '' else 'open')))
                 if auth_on and not all(wrapped.values()):
                     ctx.violation('handler-not-wrapped', 'section %s: not wrapped: %s' % (section, sorted(k for k, v in wrapped.items() if not v)),
@@ -670,14 +670,14 @@ def run_level_b_multi(ctx):
                                     ctx.violation('served-with-other-sections-credentials',
                                                   '%s %s on [%s] (user %r) was served with the credentials of another section (user %r)'
                                                   % (method, path, section, user, others[0]), inp)
+                                elif user == '':
+                                    ctx.violation('empty-username-disables-auth', '[%s] with an empty username serves %s %s without credentials' % (section, method, path), inp)
                                 else:
                                     ctx.violation('served-without-valid-credentials', '%s %s on [%s] reached %s with header class %s'
                                                   % (method, path, section, handled and handled[0][1], label), inp)
                             if label == 'section-%d-credentials' % i and matched and not handled:
                                 ctx.violation('valid-credentials-refused', '[%s]: its own credentials answered %s (another section\'s entry replaced them?)'
                                               % (section, status), inp)
-                        elif user == '' and handled:
-                            ctx.violation('empty-username-disables-auth', '[%s] with an empty username serves %s %s without credentials' % (section, method, path), inp)
                         if handled:
                             ai = handled[0][2]
                             line = 'status=- invoked=%s auth=%s' % (handled[0][1], '-' if ai is None else '%s:%s' % (hs(ai[0]), hs(ai[1])))
